@@ -22,7 +22,7 @@ import (
 
 func init() {
 	register("C14", "cache", &PartDef{
-		Rule: "bfs: breadth-first search to a fixpoint over histories of {Put(base in 0..2, used/unused; a fresh block or the block the cache last handed back, overwritten with the new member as the Reader does), Get, Peek, Len, Cap, Resize(1..3), Drop(0..2), Free(0..2)} for each cache kind {LRU,FIFO,Random,StatsRecorder(LRU),StatsRecorder(FIFO),StatsRecorder(Random)} x initial capacity 1..3; Random's map iteration order is an explorer choice, all orders taken; state key = capacity, policy queue (keys, bases, used flags, which entry aliases the block in the caller's hand), hand; each transition compared with the list model (result, queue order, table consistency, handed-out block no longer indexed, Len<=Cap, StatsRecorder counters). conc: all interleavings (no preemption bound) of 2-3 threads x 1-2 ops from {Put new used/unused block at base 0/1, Get, Peek, Len, Drop(1), Resize(1)} on caches pre-filled with 0..2 blocks; history of call/return events checked with porcupine. Non-trivial: bfs transitions that change or query a non-empty cache; conc executions with at least one choice point.",
+		Rule:   "bfs: breadth-first search to a fixpoint over histories of {Put(base in 0..2, used/unused; a fresh block or the block the cache last handed back, overwritten with the new member as the Reader does), Get, Peek, Len, Cap, Resize(1..3), Drop(0..2), Free(0..2)} for each cache kind {LRU,FIFO,Random,StatsRecorder(LRU),StatsRecorder(FIFO),StatsRecorder(Random)} x initial capacity 1..3; Random's map iteration order is an explorer choice, all orders taken; state key = capacity, policy queue (keys, bases, used flags, which entry aliases the block in the caller's hand), hand; each transition compared with the list model (result, queue order, table consistency, handed-out block no longer indexed, Len<=Cap, StatsRecorder counters). conc: all interleavings (no preemption bound) of 2-3 threads x 1-2 ops from {Put new used/unused block at base 0/1, Get, Peek, Len, Drop(1), Resize(1)} on caches pre-filled with 0..2 blocks; history of call/return events checked with porcupine. Non-trivial: bfs transitions that change or query a non-empty cache; conc executions with at least one choice point.",
 		Gen:    c14gen,
 		Direct: c14direct,
 	})
